@@ -1,5 +1,6 @@
 (* Proofs/PolicyArcProofs.v — what ArcP satisfies of the C14 contract, for every
-   capacity and call sequence, and the two refutations of finding F-20. *)
+   capacity and call sequence (everything except that an admission may silently
+   drop one other resident), and the refutation for finding F-20-arc-admit. *)
 From Fibre Require Import Common.Base Cache.PolicySpec Cache.PolicyLru Cache.PolicySlru
      Cache.PolicySieve Cache.PolicyArc Proofs.PolicyCommon Proofs.PolicySlruProofs.
 
@@ -39,28 +40,30 @@ Proof.
     intros H. inversion H; subst. cbn [a_t1 a_t2 a_p]. split; [|reflexivity].
     apply ll_pop_back_some in E. rewrite E, <- app_assoc. cbn [app].
     apply Permutation_sym, Permutation_middle.
-  - destruct (ll_pop_back (a_t2 s)) as [[[k1 c1] t2']|] eqn:E; [|discriminate].
-    intros H. inversion H; subst. cbn [a_t1 a_t2 a_p]. split; [|reflexivity].
-    apply ll_pop_back_some in E. rewrite E, app_assoc.
-    apply Permutation_sym, Permutation_cons_append.
+  - destruct (ll_pop_back (a_t2 s)) as [[[k1 c1] t2']|] eqn:E.
+    + intros H. inversion H; subst. cbn [a_t1 a_t2 a_p]. split; [|reflexivity].
+      apply ll_pop_back_some in E. rewrite E, app_assoc.
+      apply Permutation_sym, Permutation_cons_append.
+    + destruct (ll_pop_back (a_t1 s)) as [[[k1 c1] t1']|] eqn:E1; [|discriminate].
+      intros H. inversion H; subst. cbn [a_t1 a_t2 a_p]. split; [|reflexivity].
+      apply ll_pop_back_some in E1. rewrite E1, <- app_assoc. cbn [app].
+      apply Permutation_sym, Permutation_middle.
 Qed.
 
-(** ... and returns nothing only when T2 is empty and T1 is worth 0 or less than p *)
-Lemma arc_replace_none cap kib s :
-  arc_replace cap kib s = None ->
-  a_t2 s = [] /\ (total (a_t1 s) = 0 \/ total (a_t1 s) < a_p s).
+(** ... and returns nothing only when there is no resident at all *)
+Lemma arc_replace_none cap kib s : arc_replace cap kib s = None -> arc_tr s = [].
 Proof.
-  unfold arc_replace.
+  unfold arc_replace, arc_tr.
   destruct (N.ltb_spec 0 (total (a_t1 s))) as [Hpos|Hz]; cbn [andb].
-  - destruct (N.leb_spec (a_p s) (total (a_t1 s))) as [Hge|Hlt]; cbn [orb].
+  - destruct (orb (N.leb (a_p s) (total (a_t1 s))) (andb kib (N.eqb (total (a_t1 s)) (a_p s)))).
     + destruct (ll_pop_back (a_t1 s)) as [[[k1 c1] t1']|] eqn:E; [discriminate|].
       apply ll_pop_back_none in E. rewrite E in Hpos. cbn [total] in Hpos. lia.
-    + destruct (andb kib (N.eqb (total (a_t1 s)) (a_p s))) eqn:Eb.
-      * apply andb_true_iff in Eb. destruct Eb as [_ Eb]. apply N.eqb_eq in Eb. lia.
-      * destruct (ll_pop_back (a_t2 s)) as [[[k1 c1] t2']|] eqn:E; [discriminate|].
-        intros _. split; [apply ll_pop_back_none; exact E | right; exact Hlt].
+    + destruct (ll_pop_back (a_t2 s)) as [[[k1 c1] t2']|] eqn:E; [discriminate|].
+      destruct (ll_pop_back (a_t1 s)) as [[[k1 c1] t1']|] eqn:E1; [discriminate|].
+      intros _. apply ll_pop_back_none in E. apply ll_pop_back_none in E1. rewrite E, E1. reflexivity.
   - destruct (ll_pop_back (a_t2 s)) as [[[k1 c1] t2']|] eqn:E; [discriminate|].
-    intros _. split; [apply ll_pop_back_none; exact E | left; lia].
+    destruct (ll_pop_back (a_t1 s)) as [[[k1 c1] t1']|] eqn:E1; [discriminate|].
+    intros _. apply ll_pop_back_none in E. apply ll_pop_back_none in E1. rewrite E, E1. reflexivity.
 Qed.
 
 Lemma perm_cons_inv_NoDup (x : kc) T R : NoDup (keys T) -> Permutation T (x :: R) -> NoDup (keys R).
@@ -81,8 +84,7 @@ Proof.
   unfold arc_inv. eapply perm_cons_inv_NoDup; eauto.
 Qed.
 
-Lemma arc_evict_one_none cap s :
-  arc_evict_one cap s = None -> a_t2 s = [] /\ (total (a_t1 s) = 0 \/ total (a_t1 s) < a_p s).
+Lemma arc_evict_one_none cap s : arc_evict_one cap s = None -> arc_tr s = [].
 Proof.
   unfold arc_evict_one.
   set (kib := match ll_pop_back (a_t1 s) with Some ((k, _), _) => ll_has k (a_b2 s) | None => false end).
@@ -90,25 +92,24 @@ Proof.
   intros _. eapply arc_replace_none; eauto.
 Qed.
 
-(** evict: every clause except sufficiency; and it falls short only by stalling *)
+(** evict: every clause, including sufficiency *)
 Lemma arc_evict_ok cap n s s' vs f :
   arc_inv s ->
   evict_loop (arc_evict_one cap) (length (a_t1 s) + length (a_t2 s)) n 0 s [] = (s', vs, f) ->
-  evict_core (arc_tr s) (arc_tr s') vs f
-  /\ (n <= f \/ (a_t2 s' = [] /\ (total (a_t1 s') = 0 \/ total (a_t1 s') < a_p s'))).
+  evict_ok (arc_tr s) (arc_tr s') n vs f.
 Proof.
   intros HI H.
   assert (Hlen : (length (arc_tr s) <= length (a_t1 s) + length (a_t2 s))%nat).
   { unfold arc_tr. rewrite app_length. apply le_n. }
   destruct (evict_loop_inv (arc_evict_one cap) arc_tr arc_inv (arc_evict_one_some cap)
               _ _ _ _ _ _ _ _ HI H Hlen) as [V [Hv [Hf [HP [_ Hs]]]]].
-  cbn [rev app] in Hv. subst vs. split.
-  - apply (evict_ok_core _ _ 0). apply evict_ok_split; [exact HI | exact HP | lia | lia].
-  - destruct Hs as [Hs|[Hs|Hs]].
-    + left. exact Hs.
-    + right. apply arc_evict_one_none in Hs. exact Hs.
-    + right. unfold arc_tr in Hs. apply app_eq_nil in Hs. destruct Hs as [H1 H2].
-      split; [exact H2 | left; rewrite H1; reflexivity].
+  cbn [rev app] in Hv. subst vs.
+  apply evict_ok_split; [exact HI | exact HP | lia |].
+  intros Hn.
+  assert (Hdone : n <= f \/ arc_tr s' = []).
+  { destruct Hs as [Hs|[Hs|Hs]]; [left; exact Hs | right; apply arc_evict_one_none in Hs; exact Hs | right; exact Hs]. }
+  destruct Hdone as [Hd|Hd]; [exact Hd|].
+  rewrite Hd, app_nil_r in HP. apply total_perm in HP. lia.
 Qed.
 
 (** on_access / re-admission of a resident: moved to the front of T2 with the new cost *)
@@ -240,7 +241,7 @@ Qed.
 
 Lemma arc_step_ok cap s cl : arc_inv s ->
   let '(s', o) := arc_step cap s cl in
-  step_okG access_update admit_demote evict_nosuff (arc_tr s) cl o (arc_tr s').
+  step_okG access_update admit_demote evict_ok (arc_tr s) cl o (arc_tr s').
 Proof.
   intros H. destruct cl as [k c|k c|k|n|]; cbn [arc_step step_okG].
   - apply arc_access_ok. exact H.
@@ -248,54 +249,28 @@ Proof.
   - apply arc_remove_ok. exact H.
   - destruct (evict_loop (arc_evict_one cap) (length (a_t1 s) + length (a_t2 s)) n 0 s [])
       as [[s' vs] f] eqn:E.
-    cbn [step_okG]. unfold evict_nosuff. eapply arc_evict_ok; eauto.
+    cbn [step_okG]. eapply arc_evict_ok; eauto.
   - reflexivity.
 Qed.
 
-Theorem arc_contract_except_F20 cap :
-  contractG access_update admit_demote evict_nosuff (ArcP cap).
+Theorem arc_contract_except_F20_admit cap :
+  contractG access_update admit_demote evict_ok (ArcP cap).
 Proof.
   apply contractG_lift_nodup.
   - exact access_update_NoDup.
   - exact admit_demote_NoDup.
-  - intros T T' n vs c H. exact H.
+  - intros T T' n vs c. apply evict_ok_core.
   - constructor.
   - intros s cl Hs. exact (arc_step_ok cap s cl Hs).
 Qed.
 
-(** reachable states satisfy the invariant, hence the stall characterisation
-    holds after every call sequence *)
-Lemma arc_reachable_inv cap cs : arc_inv (pstate_after (ArcP cap) cs).
-Proof. destruct (arc_contract_except_F20 cap cs) as [H _]. exact H. Qed.
-
-Theorem arc_evict_short_only_by_stall cap cs n :
-  let s := pstate_after (ArcP cap) cs in
-  let '(s', o) := arc_step cap s (Evict n) in
-  exists vs f, o = OVictims vs f
-    /\ (n <= f \/ (a_t2 s' = [] /\ (total (a_t1 s') = 0 \/ total (a_t1 s') < a_p s'))).
-Proof.
-  cbv zeta. pose proof (arc_reachable_inv cap cs) as HI. cbn [arc_step].
-  destruct (evict_loop (arc_evict_one cap) _ n 0 (pstate_after (ArcP cap) cs) [])
-    as [[s' vs] f] eqn:E.
-  exists vs, f. split; [reflexivity|]. eapply arc_evict_ok; eauto.
-Qed.
-
-(** F-20, first half: on_admit under capacity pressure stops tracking a resident
-    without nominating it (ArcPolicy::new(2): admit 1, 2, 3) *)
+(** F-20-arc-admit: on_admit under capacity pressure stops tracking a resident
+    without nominating it (ArcPolicy::new(2): admit 1, 2, 3).  Refuted even with
+    the sufficiency clause dropped, hence also for the full statement. *)
 Theorem arc_admit_refuted : ~ contractG access_update admit_full evict_nosuff (ArcP 2).
 Proof.
   intros H. specialize (H [Admit 1 1; Admit 2 1]). cbv zeta in H. destruct H as [_ H].
   specialize (H (Admit 3 1)).
   change (Permutation [(3, 1); (2, 1)] [(3, 1); (2, 1); (1, 1)]) in H.
   apply Permutation_length in H. discriminate.
-Qed.
-
-(** F-20, second half: evict returns nothing although a tracked key is worth the
-    request (p = 2 > T1's cost 1, T2 empty) *)
-Theorem arc_sufficiency_refuted : ~ contractG access_update admit_demote evict_ok (ArcP 10).
-Proof.
-  intros H. specialize (H [Admit 1 1; Evict 1; Admit 1 1; Evict 1; Admit 1 1]).
-  cbv zeta in H. destruct H as [_ H]. specialize (H (Evict 1)).
-  change (evict_ok [(1, 1)] [(1, 1)] 1 [] 0) in H.
-  destruct H as [_ [_ [_ [_ H]]]]. cbn [total] in H. lia.
 Qed.
